@@ -1306,12 +1306,130 @@ def _functions(tree: ast.Module):
     return out
 
 
+def _evidently_bool(e: ast.expr) -> bool:
+    if isinstance(e, ast.Compare):
+        return True
+    if isinstance(e, ast.UnaryOp) and isinstance(e.op, ast.Not):
+        return True
+    if isinstance(e, ast.BoolOp):
+        return all(_evidently_bool(v) for v in e.values)
+    if isinstance(e, ast.Constant) and isinstance(e.value, bool):
+        return True
+    if isinstance(e, ast.Call) and isinstance(e.func, ast.Name) and e.func.id in ("isinstance", "issubclass", "callable", "hasattr", "all", "any", "bool"):
+        return True
+    return False
+
+
+def _tree_to_expr(body: List[ast.stmt]) -> Optional[ast.expr]:
+    """The value of a block that is a tree of if/else with `return <expr>` leaves, as one expression."""
+    body = [s for s in body if not _docstring(s) and not isinstance(s, ast.Pass)]
+    if len(body) == 1 and isinstance(body[0], ast.Return) and body[0].value is not None:
+        return body[0].value
+    if len(body) == 1 and isinstance(body[0], ast.If):
+        st = body[0]
+        a, b = _tree_to_expr(st.body), _tree_to_expr(st.orelse)
+        if a is None or b is None:
+            return None
+        c = st.test
+        ka = a.value if isinstance(a, ast.Constant) and isinstance(a.value, bool) else None
+        kb = b.value if isinstance(b, ast.Constant) and isinstance(b.value, bool) else None
+        if _evidently_bool(c):
+            if ka is False:
+                return ast.BoolOp(ast.And(), [_negate(c), b])
+            if ka is True:
+                return ast.BoolOp(ast.Or(), [c, b])
+            if kb is False:
+                return ast.BoolOp(ast.And(), [c, a])
+            if kb is True:
+                return ast.BoolOp(ast.Or(), [_negate(c), a])
+        return None  # a value-producing decision tree stays a statement tree (it is inlined as statements)
+    return None
+
+
+def expression_bodied(hdef: ast.FunctionDef) -> bool:
+    """C12: a helper whose body is a decision tree of returns becomes `return <one expression>` (so that a predicate
+    written with guard clauses can be inlined into the test that calls it)."""
+    body = [s for s in hdef.body if not _docstring(s)]
+    if len(body) == 1 and isinstance(body[0], ast.Return):
+        return False
+    e = _tree_to_expr(body)
+    if e is None:
+        return False
+    doc = [s for s in hdef.body if _docstring(s)]
+    hdef.body = doc + [ast.copy_location(ast.Return(_ExprNorm().visit(ast.fix_missing_locations(ast.copy_location(e, body[0])))), body[0])]
+    ast.fix_missing_locations(hdef)
+    return True
+
+
+def rehome(tree: ast.Module, ref_funcs: Set[str]) -> int:
+    """C11: a function that only changed its home — module-level `f(x, ..)` made a method `x.f(..)` of a class of the
+    file, or the reverse — is put back where the reference has it (the def moves, calls are rewritten), so that it
+    is the same function to the rules, not a new helper next to a vanished anchor."""
+    funcs = _functions(tree)
+    have = {q for q, _c, _f, _b in funcs}
+    shorts: Dict[str, List[str]] = {}
+    for q in have:
+        if ".<locals>." not in q:
+            shorts.setdefault(q.split(".")[-1], []).append(q)
+    classes = {st.name: st for st in tree.body if isinstance(st, ast.ClassDef)}
+    n = 0
+    for q, cls, fn, container in funcs:
+        if q in ref_funcs or ".<locals>." in q or len(shorts.get(fn.name, [])) != 1:
+            continue
+        decos = {ast.unparse(d).split("(")[0].split(".")[-1] for d in fn.decorator_list}
+        if decos:
+            continue
+        if cls is not None and fn.name in ref_funcs and fn.args.args:
+            # method -> module-level function: `E.f(a)` -> `f(E, a)`
+            selfname = fn.args.args[0].arg
+            if any(isinstance(x, ast.Name) and x.id == "super" for x in ast.walk(fn)):
+                continue
+            container.remove(fn)
+            if not container:
+                container.append(ast.Pass())
+            tree.body.append(fn)
+
+            class R1(ast.NodeTransformer):
+                def visit_Call(self, node):
+                    self.generic_visit(node)
+                    if isinstance(node.func, ast.Attribute) and node.func.attr == fn.name:
+                        return ast.copy_location(ast.Call(ast.Name(fn.name, ast.Load()), [node.func.value] + node.args, node.keywords), node)
+                    return node
+
+            R1().visit(tree)
+            n += 1
+        elif cls is None:
+            # module-level function -> method of the class the reference has it in: `f(E, a)` -> `E.f(a)`
+            homes = [r for r in ref_funcs if r.endswith("." + fn.name) and r.count(".") == 1 and r.split(".")[0] in classes]
+            if len(homes) != 1 or not fn.args.args:
+                continue
+            container.remove(fn)
+            if not container:
+                container.append(ast.Pass())
+            classes[homes[0].split(".")[0]].body.append(fn)
+
+            class R2(ast.NodeTransformer):
+                def visit_Call(self, node):
+                    self.generic_visit(node)
+                    if isinstance(node.func, ast.Name) and node.func.id == fn.name and node.args and not isinstance(node.args[0], ast.Starred):
+                        return ast.copy_location(ast.Call(ast.Attribute(node.args[0], fn.name, ast.Load()), node.args[1:], node.keywords), node)
+                    return node
+
+            R2().visit(tree)
+            n += 1
+    if n:
+        ast.fix_missing_locations(tree)
+    return n
+
+
 def canonicalise(tree: ast.Module, ref_funcs: Optional[Set[str]], ref_consts: Optional[Set[str]], noreturn: Set[str] = frozenset(NORETURN_DEFAULT)) -> Dict[str, int]:
     """Bring every function of the module into canonical form, in place.  `ref_funcs` / `ref_consts`: the
     qualified function names / module-level constant names of this file on the reference tree (None: no
     reference for the file — nothing is inlined)."""
     stats = {"functions": 0, "temporaries": 0, "comprehensions": 0, "inlined_helpers": 0, "inlined_constants": 0}
     canon = Canon(set(noreturn))
+    if ref_funcs is not None:
+        stats["rehomed"] = rehome(tree, ref_funcs)
     funcs = _functions(tree)
     # ---- C8 (constants): module-level literal constants that are new w.r.t. the reference are inlined first, so that
     #      a dispatch table hoisted out of a function is seen in place by the loop that scans it
@@ -1366,6 +1484,7 @@ def canonicalise(tree: ast.Module, ref_funcs: Optional[Set[str]], ref_consts: Op
                     if not (a_ or b_):
                         break
                     hdef.body = canon.function_body(hdef.body)
+                expression_bodied(hdef)
             for q, cls, fn, _c in funcs:
                 if ".<locals>." in q:
                     continue
